@@ -1873,9 +1873,18 @@ class SpecEval:
 # --------------------------------------------------------------------------------------
 # discharge
 # --------------------------------------------------------------------------------------
-def _solve(hyps, goal, timeout_ms, tactic=None):
+RLIMIT_PER_MS = 6000      # z3 resource units per millisecond of nominal budget (about 2x what this machine spends per ms on these queries)
+
+
+def _solve(hyps, goal, timeout_ms, tactic=None, deterministic=False):
     s = z3.Solver() if tactic is None else z3.Then(*tactic).solver() if isinstance(tactic, (list, tuple)) else z3.Tactic(tactic).solver()
-    s.set("timeout", timeout_ms)
+    if deterministic:
+        # the budget of a proof obligation is z3's deterministic resource counter, not wall time: the verdict of a query is then the same on a
+        # slow or busy machine; wall time only as a 12x backstop
+        s.set("rlimit", int(timeout_ms * RLIMIT_PER_MS))
+        s.set("timeout", int(timeout_ms * 12))
+    else:
+        s.set("timeout", timeout_ms)
     for h in hyps:
         s.add(h)
     s.add(z3.Not(goal))
@@ -1911,16 +1920,16 @@ def discharge(name, hyps, goal, timeout_ms=10000):
     g = z3.simplify(goal)
     if z3.is_true(g):
         return PROVED, "z3-simplify", 0.0, "goal simplifies to true"
-    r, dt, s = _solve(hyps, goal, timeout_ms)
+    r, dt, s = _solve(hyps, goal, timeout_ms, deterministic=True)
     if r == z3.unsat:
         return PROVED, "z3", dt, "unsat"
     if r == z3.sat:
         return FAILED, "z3", dt, "sat: " + _model_text(s)
     # unknown: other solver, then larger budget
-    ans = _cvc5(hyps, goal, timeout_ms)
+    ans = _cvc5(hyps, goal, timeout_ms * 3)
     if ans == "unsat":
         return PROVED, "cvc5", dt, "z3 unknown; cvc5 unsat"
-    r2, dt2, s2 = _solve(hyps, goal, timeout_ms * 6)
+    r2, dt2, s2 = _solve(hyps, goal, timeout_ms * 6, deterministic=True)
     if r2 == z3.unsat:
         return PROVED, "z3", dt + dt2, "unsat (enlarged budget)"
     if r2 == z3.sat:
